@@ -16,6 +16,7 @@ class Snapshot:
         self.toks = list(root.token_store)
         self.tok_ids = [id(t) for t in self.toks]
         self.tok_texts = [t.raw_text for t in self.toks]
+        self.claimed = [(id(t), bool(t.claimed)) for t in self.toks if isinstance(t, models.BlockComment)]
         self.struct = None
         self.parent = None
         if op is not None and op.get('parent') is not None:
@@ -97,6 +98,8 @@ def o_refused(root, pre, op, res, extra):
     elif pre.struct is not None and intro.struct(root) != pre.struct:
         out.append((f'refused-changed-tree:{kind}:{res[1]}', f'{res[1]} raised by {kind} but the tree changed: ' +
                     str(intro.struct_diff(pre.struct, intro.struct(root)))))
+    elif [(id(t), bool(t.claimed)) for t in root.token_store if isinstance(t, models.BlockComment)] != pre.claimed:
+        out.append((f'refused-changed-claimed-flag:{kind}:{res[1]}', f'{res[1]} raised by {kind} but a block comment changed its claimed flag'))
     elif [id(t) for t in root.token_store] != pre.tok_ids:
         out.append((f'refused-moved-tokens:{kind}:{res[1]}', f'{res[1]} raised by {kind} but the token sequence of the document (zero-width marks included) is no longer the same'))
     bad = intro.check_inv(root)
